@@ -15,9 +15,10 @@ from harness import common as C
 PROP = "C06"
 COQ_TARGETS = ["Props/C06.vo", "Extract/ExtractC06.vo"]
 TRUSTED = [
-    "the check follows the repaired code (fix: commits a455136 37fb060 a2f08b3 2ad4134 a8ad4f5 fd59dc0): the model is run "
-    "at fixed=true; fixed=false (the unrepaired code, incl. the quantifier reading of digits-only references) is kept "
-    "for the record theorems and is checkable with VERIF_C06_FIXED=0 against an unpatched tree",
+    "the check follows the code as it is now: /repo contains the fix commits a455136 37fb060 a2f08b3 2ad4134 a8ad4f5 "
+    "fd59dc0 220dc27 and the model is run at fixed=true, keepcat=false; fixed=false / keepcat=true (the behaviour BEFORE "
+    "those commits, incl. the quantifier reading of digits-only references) is kept only for the record theorems of the "
+    "repaired defects and is checkable with VERIF_C06_FIXED=0 VERIF_C06_KEEPCAT=1 against a tree at 5312cdc",
     "Model/RefSplice.v (replace_ref, _remover, the regular expression as an explicit backtracking scanner with the "
     "one-occurrence-at-a-time loop, the {ref} scanner) and Model/Assemble.v (_detect_column_type, "
     "_finalize_mapping, get_transformers, _category_handler, _value_handler, _handle_transforms, "
@@ -31,9 +32,17 @@ TRUSTED = [
     "Sidecar.get_column_refs is an input of the model (theorems quantify over every order)",
 ]
 ASSUMPTIONS = [
-    "row_is_union, row_order, deterministic, inputs_unchanged, na_is_removed, never-raises, skipped cells contribute "
-    "nothing are proved for all tables and sidecars of the model of the repaired code; splice_tree/splice_well_delimited are kernel-evaluated exhaustively for every template "
-    "over {a,blank,',','(',')',{r}} up to length 7 (bounded, as stated in the theorems)",
+    "proved for all tables and sidecars of the model of the current code: which columns are listed and with which "
+    "transformer, read off the sidecar's JSON shape (HED column, categorical, value, unlisted kinds, sorted distinct names), "
+    "row_is_union over that specified list, row_order, second answer equals the first, na_is_removed, never-raises, skipped "
+    "cells contribute nothing, verbatim splice, exact n/a, histories (switches and edits); splice_tree/"
+    "splice_well_delimited are kernel-evaluated exhaustively for every template over {a,blank,',','(',')',{r}} up to "
+    "length 7 (BOUNDED, as stated in the theorem)",
+    "holds only by construction of the model: 'changes neither the table nor the sidecar' (the model is functional and "
+    "rebuilds its state with the same table and sidecar); in-place mutation by pandas is outside the model and this "
+    "clause is TESTED on the implementation (cells, columns, row order, index, sidecar compared before/after each case). "
+    "spec_row (the row-wise description in row_is_union) re-uses the model's helpers replace_ref/keep_part/get_col; their "
+    "behaviour is stated by separate theorems (na_is_removed, literal splice, exact n/a, bounded splice_tree)",
     "tables are text cells; DataFrame index labels are not part of the model (a non-default index is exercised on "
     "the implementation and checked against the statement only); file loading (read_csv, '' -> n/a) is trusted pandas behaviour",
     "property oracle domain: sidecars that the HED sidecar rules accept structurally (no nested/self references, "
@@ -44,13 +53,14 @@ ASSUMPTIONS = [
 NA = "n/a"
 # 1 (default): /repo carries the six fix: commits (a455136 37fb060 a2f08b3 2ad4134 a8ad4f5 fd59dc0); the check follows
 # the repaired code: model at fixed=true everywhere, the oracle demands the full statement.
-# 0: the unrepaired code (VERIF_REPO must point at a tree without those commits): model at fixed=false, failures of the
-# classes C06-F1..F6 are attributed to the recorded (now repaired) defects.
+# 0: the behaviour BEFORE those commits (VERIF_REPO must point at a tree without them, e.g. at 5312cdc): model at
+# fixed=false, failures of the classes C06-F1..F6 are attributed to the recorded, now repaired, defects.
 FIXED = int(os.environ.get("VERIF_C06_FIXED", "1"))
-# 1 (default): _handle_transforms leaves the pandas 'category' dtype on self._dataframe (the code as it is, finding
-# C06-F7); 0: the tree under test works on a copy (proposed one-line repair) -- the model then runs with keepcat=false,
-# generated histories also edit categorical columns and no set_cell failure is accepted.
-KEEPCAT = int(os.environ.get("VERIF_C06_KEEPCAT", "0"))   # fix: commit in /repo (category dtype no longer kept)
+# 0 (default): the code as it is since fix commit 220dc27 (_handle_transforms works on a copy, the stored frame keeps
+# its dtype): the model runs with keepcat=false, generated histories also edit categorical columns and no set_cell
+# failure is accepted.  1: the behaviour BEFORE 220dc27 (repaired defect C06-F7: the pandas 'category' dtype stayed on
+# self._dataframe); only meaningful with VERIF_REPO pointing at a tree without that commit.
+KEEPCAT = int(os.environ.get("VERIF_C06_KEEPCAT", "0"))
 LEGACY_FINDINGS = {
     "C06-F1": "an empty referenced-column text (n/a/empty/unknown categorical cell) substituted literally: '{cat}, Square' -> ', Square'",
     "C06-F2": "digits-only reference used un-escaped in the pattern ({1} is a quantifier): 'Red, {1}, Blue' -> 'Red{1}Blue'; {0} raises",
@@ -478,6 +488,37 @@ def oracle(case, r, res, counts):
             counts["fail:" + str(fid)] = counts.get("fail:" + str(fid), 0) + 1
 
 
+_KNOWN_IDS = {}
+
+
+def _impl_and_oracle(case):
+    """worker: run the implementation and the statement oracle for one case"""
+    r = impl_case(case)
+    res = C.Result(PROP)
+    res.known_ids = _KNOWN_IDS
+    counts = {}
+    oracle(case, r, res, counts)
+    case.pop("_loaded_rows", None)
+    return r, res.violations, res.known, counts
+
+
+def _history_and_oracle(case):
+    h = impl_history(case)
+    res = C.Result(PROP)
+    res.known_ids = _KNOWN_IDS
+    counts = {}
+    oracle_history(case, h, res, counts)
+    return h, res.violations, res.known, counts
+
+
+def _merge(res, counts, viol, known, cnt):
+    res.violations.extend(viol)
+    for k, n in known.items():
+        res.known[k] = res.known.get(k, 0) + n
+    for k, n in cnt.items():
+        counts[k] = counts.get(k, 0) + n
+
+
 def public_case(case):
     return {k: v for k, v in case.items() if not k.startswith("_")}
 
@@ -753,7 +794,8 @@ def gen_history(rng):
             ops.append(["assemble"])
         else:
             # cells of columns that are categorical under one of the sidecars are edited only in HISTORY_CORPUS:
-            # once an assembly left the 'category' dtype on such a column, pandas refuses the edit (finding C06-F7:
+            # before fix commit 220dc27 an assembly left the 'category' dtype on such a column and pandas refused the edit
+            # (repaired defect C06-F7; only relevant with VERIF_C06_KEEPCAT=1 against a tree without that commit:
             # TypeError for a new category; for an existing one it depends on pandas-internal read-only flags)
             ok_cols = [j for j, c in enumerate(cols)
                        if not KEEPCAT or not any(isinstance(sc, dict) and isinstance(sc.get(c), dict) and isinstance(sc[c].get("HED"), dict)
@@ -774,7 +816,8 @@ HISTORY_CORPUS = [
                    "val": {"HED": "({response_time}, Label/#)"}}],
      "columns": ["cat", "response_time", "val"], "rows": [["go", "3", "x"], ["stop", NA, "y"]],
      "ops": [["assemble"], ["reset", 1], ["assemble"], ["assemble"], ["reset", 0], ["assemble"], ["reset", None], ["assemble"]]},
-    # C06-F7: a cell of a categorical column set to a new value after an assembly
+    # regression for repaired defect C06-F7 (fix commit 220dc27): a cell of a categorical column set to a new value after
+    # an assembly -- must now be accepted
     {"sidecars": [{"cat": {"HED": {"go": "Red", "stop": "Blue"}}}],
      "columns": ["cat", "HED"], "rows": [["go", "Green"], ["go", NA]],
      "ops": [["assemble"], ["set_cell", 1, 0, "stop"], ["assemble"], ["set_cell", 0, 1, "Square"], ["assemble"]]},
@@ -973,7 +1016,7 @@ def regex_exhaustive(tier, exe, res, pool, proof_ok):
         else:
             plan = [(1, "r", NA, 8), (1, "1", NA, 7), (1, "12", NA, 6), (1, "0", NA, 6), (1, "r", "", 7), (1, "r", "(b), c", 6)]
         # replacement-text dimension: characters special to re/format machinery and near-misses of n/a
-        plan += [(1, "r", nv, 3 if tier == "quick" else 5) for nv in SPECIAL_TEXT + NEAR_NA]
+        plan += [(1, "r", nv, 2 if tier == "quick" else 5) for nv in SPECIAL_TEXT + NEAR_NA]
         plan += [(1, "x-y", nv, 3) for nv in ("\\1", "n", NA)]
     elif tier == "quick":
         plan = [(0, "r", NA, 6), (0, "1", NA, 5), (0, "12", NA, 5), (0, "r", "", 5), (0, "r", "(b), c", 4), (1, "r", NA, 5),
@@ -1017,7 +1060,15 @@ def regex_exhaustive(tier, exe, res, pool, proof_ok):
     return total, plan
 
 
-def check_class_tables(exe):
+def _cpython_classes(rng_):
+    """code points of [lo, hi) matched by \\s / by the IGNORECASE reference class, according to CPython re"""
+    lo, hi = rng_
+    ws_re = re.compile(r"\s")
+    rc_re = re.compile(r"[a-z_\-0-9]", re.IGNORECASE)
+    return ([c for c in range(lo, hi) if ws_re.fullmatch(chr(c))], [c for c in range(lo, hi) if rc_re.fullmatch(chr(c))])
+
+
+def check_class_tables(exe, pool=None):
     """\\s and the IGNORECASE reference class of the model equal CPython's for every code point"""
     step = 0x8000
     lines = [f"(K {lo} {min(lo + step, 0x110000)})" for lo in range(0, 0x110000, step)]
@@ -1029,16 +1080,13 @@ def check_class_tables(exe):
                 ws.add(int(cp))
             if b == "1":
                 rc.add(int(cp))
-    ws_re = re.compile(r"\s")
-    rc_re = re.compile(r"[a-z_\-0-9]", re.IGNORECASE)
-    bad = []
-    for c in range(0x110000):
-        ch = chr(c)
-        if (ws_re.fullmatch(ch) is not None) != (c in ws):
-            bad.append(("\\s", c))
-        if (rc_re.fullmatch(ch) is not None) != (c in rc):
-            bad.append(("refchar", c))
-    return bad
+    ranges = [(lo, min(lo + step, 0x110000)) for lo in range(0, 0x110000, step)]
+    parts = pool.map(_cpython_classes, ranges, chunksize=1) if pool is not None else [_cpython_classes(r_) for r_ in ranges]
+    ws_py, rc_py = set(), set()
+    for a, b in parts:
+        ws_py.update(a)
+        rc_py.update(b)
+    return [("\\s", c) for c in sorted(ws ^ ws_py)] + [("refchar", c) for c in sorted(rc ^ rc_py)]
 
 
 # ------------------------------------------------------------------ run
@@ -1094,8 +1142,8 @@ def run(tier, seed, res, model_ok=True, proof_ok=True):
 
 
 def _run(tier, seed, res, model_ok, proof_ok, rng, scratch):
-    nval = 1000 if tier == "quick" else 20000
-    nmal = 400 if tier == "quick" else 8000
+    nval = 700 if tier == "quick" else 20000
+    nmal = 300 if tier == "quick" else 8000
     if not FIXED:
         res.known_ids = dict(getattr(res, "known_ids", {}))
         for k, v in LEGACY_FINDINGS.items():
@@ -1122,23 +1170,27 @@ def _run(tier, seed, res, model_ok, proof_ok, rng, scratch):
         c["_scratch"] = scratch
 
     # histories on one object (only for the repaired code: the tree under test is the current one)
-    nhist = (250 if tier == "quick" else 4000) * (1 if proof_ok else 3)
+    nhist = (150 if tier == "quick" else 4000) * (1 if proof_ok else 3)
     hcases = ([copy.deepcopy(c) for c in HISTORY_CORPUS] + [gen_history(rng) for _ in range(nhist)]) if FIXED else []
 
     counts = {}
+    global _KNOWN_IDS
+    _KNOWN_IDS = dict(getattr(res, "known_ids", {}))       # inherited by the forked workers
     with Pool(int(C.JOBS)) as pool:
-        impls = pool.map(impl_case, cases, chunksize=20)
-        for c, r in zip(cases, impls):
-            oracle(c, r, res, counts)
-        himpls = pool.map(impl_history, hcases, chunksize=10)
-        for c, h in zip(hcases, himpls):
-            oracle_history(c, h, res, counts)
+        impls = []
+        for r, viol, known, cnt in pool.map(_impl_and_oracle, cases, chunksize=20):
+            impls.append(r)
+            _merge(res, counts, viol, known, cnt)
+        himpls = []
+        for h, viol, known, cnt in pool.map(_history_and_oracle, hcases, chunksize=10):
+            himpls.append(h)
+            _merge(res, counts, viol, known, cnt)
 
         disagreements = 0
         regex_total, plan = 0, []
         if model_ok:
             exe = C.build_driver("c06")
-            bad = check_class_tables(exe)
+            bad = check_class_tables(exe, pool)
             if bad:
                 res.violation("class-tables", {"codepoints": bad[:10]}, "\\s / reference class differ from CPython",
                               no_input=True)
@@ -1158,6 +1210,8 @@ def _run(tier, seed, res, model_ok, proof_ok, rng, scratch):
                     disagreements += 1
                     res.violation("correspondence-history", public_case(hcases[i]), "; ".join(diffs)[:1500], no_input=True)
             # the repaired model satisfies the statement on the in-domain cases (validates fixed=true + the oracle)
+            for i in idx:
+                cases[i]["_loaded_rows"] = impls[i]["loaded"][0]
             dom_idx = [i for i in idx if oracle_domain(cases[i], impls[i]["loaded"][1]) is None]
             flines = [case_sx(True, cases[i]["sidecar"], impls[i]["loaded"][1],
                               [[row[j] for row in impls[i]["loaded"][0]] for j in range(len(impls[i]["loaded"][1]))],
